@@ -10,9 +10,9 @@ CLAIMS = {
          "Stand-in swc_core/css_dataset/regex/indexmap/fnv (assumed dependency contracts); drop glue stubbed; bitwise Clone; transform_text, parse_directive, is_jsx_attr_value_constant, format! replaced by models in caller harnesses (each model's own contract is a separate unit); fold glue checked syntactically by the extractor."),
  "C02": ("Contracts on is_component (Fragment / KeepAlive / string tags are not slot hosts) and transform_jsx_text (text dropped iff it cleans to empty; otherwise createTextVNode(cleaned)). The text-cleaning function itself is out of Kani's reach (std string machinery) and is NOT claimed.",
          "Same stand-in / stub assumptions; transform_text replaced by an oracle."),
- "C04": ("Contracts on the real is_directive (complete over names of length <= 3), parse_directive (10 spellings x 9 value forms, bounded), v-html/v-text over every attribute-value kind (complete over kinds), resolve_directive (complete over host/type table), and the directive arm of transform_attrs.",
+ "C04": ("Contracts on the real is_directive (complete over names of length <= 3; also as a native Kani function contract), the private helpers lowercase_first_letter / is_identifier_name (complete over ASCII strings <= 3 bytes), parse_directive on 10 modifier-free spellings and 6 value forms (bounded), v-html/v-text over every attribute-value kind (complete over kinds), resolve_directive (complete over host/type table), the directive arm of transform_attrs and the no-directive case of the withDirectives region. Every form that carries MODIFIERS goes through std BTreeSet and is out of reach (not claimed).",
          "Same stand-in / stub assumptions; std BTreeSet / split / trim run on concrete names."),
- "C05": ("Contracts on parse_v_model_directive (9 forms), the model-directive selection table of resolve_directive (complete over host x type shapes) and the v-model arm of transform_attrs (keys modelValue / <arg> / computed, listener assigns $event to the target).",
+ "C05": ("Contracts on parse_v_model_directive (6 modifier-free forms incl. `v-model:arg={[x]}`), the model-directive selection table of resolve_directive (complete over host x type shapes) and, in the thorough tier (40 GB per harness), the v-model arm of transform_attrs (keys modelValue / computed, listener assigns $event to the target). Forms with modifiers are out of reach (std BTreeSet).",
          "Same stand-in / stub assumptions; generated key texts that go through format! (`fooModifiers`, `onUpdate:foo`) are not checked (format! is a CBMC tarpit)."),
  "C07": ("Unit postconditions 'no JSX / non-program token leaves this function or an error was reported' on transform_tag (namespaced names), parse_directive placeholders, transform_modifiers keys, and the pragma callee. The whole-module statement (every JSX expression replaced, re-parse) is not within reach.",
          "Same stand-in / stub assumptions."),
@@ -27,9 +27,9 @@ CLAIMS = {
  "C14": ("Contracts on Options::default() (the documented defaults: complete) and on the private serde visitor RegexVisitor (a pattern is accepted exactly when regex::Regex::new accepts it, so an invalid pattern is rejected while the configuration is read). serde's derive semantics (absent = default, unknown keys ignored) and option isolation are not within reach.", "serde derive is an external dependency (assumed); regex::Regex::new is the stand-in's model (callee contract assumed)."),
  "C15": ("Contracts on get_pragma (precedence comment > option > createVNode import, createVNode imported only when needed: complete) and search_jsx_pragma's comment rule against the spec taken from the statement on 11 comment texts (bounded).",
          "Same stand-in / stub assumptions; comments come from a global-backed Comments stand-in; which comments are scanned (traversal) is not covered."),
- "C17": ("Contract on the real infer_runtime_type for the atom table of the statement: all keyword kinds, literal kinds, 20 built-in names, function/array/tuple/parenthesis, union order, NonNullable (one level).",
+ "C17": ("Contract on the real (private) infer_runtime_type for the atom table of the statement: all keyword kinds, literal kinds and 20 built-in names. Function/array/tuple/parenthesis/union/NonNullable, indexed access and the type-list emission were built as harnesses but are out of reach (no verdict at 24 GB / 30 min) and are NOT claimed.",
          "Same stand-in / stub assumptions; alias / interface / indexed-access recursion not covered."),
- "C20": ("Contracts on is_define_component_call (5 callee shapes x recorded / not), the import recording of visit_mut_import_decl (8 import shapes) and inject_define_component_option (8 option-argument shapes: user keys win, spreads win, spread argument lists left alone).",
+ "C20": ("Contracts on is_define_component_call (5 callee shapes x recorded / not), the import recording of visit_mut_import_decl (8 import shapes) and inject_define_component_option for a missing options argument and a spread argument list. The options-LITERAL shapes (user keys win, spreads win) were built as harnesses but are out of reach (no verdict at 40 GB / 40 min) and are NOT claimed.",
          "Same stand-in / stub assumptions; name inference on declarators not covered."),
 }
 NA = {
